@@ -180,14 +180,14 @@ func TestAdapter(t *testing.T) {
 		h, port := hostPort(p.c.Conn.C.LocalAddr())
 		u := rig.OfflineUUID(p.name)
 		stPlayers = append(stPlayers, map[string]any{"name": bs(p.name), "uuid": bs(hex.EncodeToString(u[:])),
-			"host": bs(h), "port": port, "server": bs(p.server)})
+			"host": bs(h), "port": port, "server": bs(p.server), "modern": true})
 	}
 	for _, n := range []string{"lobby", "games"} {
 		h, p, _ := net.SplitHostPort(backends[n].Addr())
 		port, _ := strconv.Atoi(p)
 		stServers = append(stServers, map[string]any{"name": bs(n), "host": bs(h), "port": port})
 	}
-	st := map[string]any{"players": stPlayers, "servers": stServers, "modern": true}
+	st := map[string]any{"players": stPlayers, "servers": stServers}
 
 	send := func(data []byte) error {
 		return alConn.WritePacket(rig.CBPluginID(P, false), rig.PluginPayload("bungeecord:main", data))
